@@ -120,9 +120,13 @@ PROPS = {
     "C05": {
         "harness": "c05",
         "theorems": ["DL.C05_last_define", "DL.C05_last_model_alias", "DL.C05_define_use", "DL.C05_define_minus", "DL.C05_define_expand",
-                     "DL.C05_define_minus_expand", "DL.C05_verbatim", "DL.C05_alias_expand", "DL.C05_shared", "DL.C05_position_free"],
-        "partial": ["the whole-file statement tables(substDoc d) = tables d is given as the local substitution lemmas (per parameter, per line) "
-                    "plus position-freedom; the harness compares the tables of every generated text with those of its textual expansion",
+                     "DL.C05_define_minus_expand", "DL.C05_verbatim", "DL.C05_alias_expand", "DL.C05_shared", "DL.C05_position_free",
+                     "DL.C05_negLit", "DL.C05_define_text", "DL.C05_expand_dicts", "DL.C05_expand", "DL.C05_expand_noCC", "DL.C05_expand_tables",
+                     "DL.C05_no_uses", "DL.C05_no_uses_bool", "DL.C05_all_named", "DL.C05_expand_standalone", "DL.C05_expand_dropDefs",
+                     "DL.C05_expand_dropDefs_noCC", "DL.C05_expand_dropDefs_of_allNamed", "DL.C05_expand_subdict"],
+        "partial": ["the whole-file theorems are at statement level (tables (substDoc d) = tables d, and with the definitions dropped under "
+                    "usedAliasesOK); that substDoc is the textual expansion is checked on every generated text (driver op subst against the "
+                    "harness's own expansion), and the real code is run on the text and on its expansion",
                     "sharing of one alias subtree between lines (finding F1) is runtime aliasing: covered by the harness and C08's object-graph audit"],
         "assumptions": [],
     },
